@@ -23,6 +23,11 @@ def handler_field_of(prog, b, exec_blk, ix):
     return None, cl
 
 
+def the_table0(d, ix):
+    d = panics._strip(d)
+    return isinstance(d, tuple) and d[0] == "field" and d[2] == ix["streams"] and d[1][0] == "param"
+
+
 def run(chk):
     prog = chk.use(core.load("A", fresh=(chk.tier == "thorough")))
     chk.explanation = (
@@ -68,6 +73,47 @@ def run(chk):
         recv_d = describe(prog, b, t["args"][0])
         gm = [c for c in core.desc_calls(recv_d) if c[1].endswith("HashMap::<K, V, S, A>::get_mut") and on_streams(c[2][0])]
         chk.ob("R3.polled_from_streams", fn, "messages are polled only from entries of self.streams", bool(gm), f"receiver {panics.short_desc(recv_d)}", where=b.where(rb))
+    # a stream is registered under its own peer address: the key of `streams.insert` is peer_addr() of the stream stored with it, computed per
+    # element (in the admission loop or in a closure of its iterator chain) — never taken from a second list paired by position, where one
+    # failed peer_addr() shifts every later stream onto its neighbour's address
+    for blk, t in b.calls_to(r"HashMap::<K, V, S, A>::insert$"):
+        if not (t["args"] and the_table0(describe(prog, b, t["args"][0]), ix)) or len(t["args"]) < 3:
+            continue
+        kd = describe(prog, b, t["args"][1])
+        vd = describe(prog, b, t["args"][2])
+        pairing = [c[1] for c in core.desc_calls(kd) + core.desc_calls(vd) if core.re.search(r"::(zip|unzip|enumerate|nth|get|skip|rev|chain)$|ops::Index", c[1])]
+        direct = desc_contains(kd, lambda y: y[0] == "call" and y[1].endswith("::peer_addr"))
+        via_closure = any(y[0] == "closure" and y[1] in prog.bodies and prog.bodies[y[1]].calls_to(r"::peer_addr$") for y in core.desc_subterms(kd) if isinstance(y, tuple) and y)
+        k_next = {c[3] for c in core.desc_calls(kd) if c[1].endswith("::next") and len(c) > 3}
+        v_next = {c[3] for c in core.desc_calls(vd) if c[1].endswith("::next") and len(c) > 3}
+        same_elem = bool(k_next) and k_next <= v_next if not direct else True
+        chk.ob("R2.admission", fn, "a new stream is stored under its own peer address (address and stream come from the same element)", (direct or via_closure) and same_elem and not pairing,
+               f"address from {'peer_addr' if direct or via_closure else 'elsewhere'}, pairing adaptors {[core.short(x) for x in pairing][:3]}, same element: {same_elem}", where=b.where(blk))
+    # every pass polls every stream in the table: the set of addresses walked by the poll loop is taken from self.streams anew in each pass
+    # (a list kept across passes and refreshed only when the table's size changed misses a client admitted in the pass another one left)
+    def the_table(d):
+        d = panics._strip(d)
+        return isinstance(d, tuple) and d[0] == "field" and d[2] == ix["streams"] and d[1][0] == "param"
+    walks = [blk for blk, t in b.calls_to(r"HashMap::<K, V, S, A>::(keys|iter|iter_mut|values_mut|values|into_keys|drain)$|IntoIterator>?::into_iter$")
+             if t["args"] and the_table(describe(prog, b, t["args"][0]))]
+    passes = [blk for blk, t in b.calls_to(r"mpsc::Receiver::<T>::try_iter$|mpsc::Receiver::<T>::try_recv$")
+              if t["args"] and desc_contains(describe(prog, b, t["args"][0]), lambda y: y[0] == "field" and y[2] == ix["incoming_streams"])]
+    # (only the walks the polled address / stream comes from count: the heartbeat's own walk does not refresh the poll list)
+    feeding = set()
+    for rb in recvs:
+        rd = describe(prog, b, b.term(rb)["args"][0])
+        feeding |= {c[3] for c in core.desc_calls(rd) if len(c) > 3 and isinstance(c[3], int)}
+    walks = [w_ for w_ in walks if w_ in feeding]
+    # the head of the run loop: the block of the cycle through the poll site that dominates every other block of that cycle
+    heads = []
+    for rb in recvs[:1]:
+        scc = {x for x in b.reachable(b.succs(rb)) if rb in b.reachable([x])} | {rb}
+        heads = [h for h in scc if all(b.dominates(h, o) for o in scc)]
+    chk.floor("head of the run loop", len(heads), 1)
+    for a_ in heads[:1]:
+        w = core.must_pass(b, b.succs(a_), [a_], through_nodes=walks)
+        chk.ob("R3.polled_from_streams", fn, "each pass walks self.streams as it is in that pass (the address list is rebuilt unconditionally)", w is None and bool(walks),
+               "a pass can run with the address list of an earlier pass: a stream admitted meanwhile is not polled, its messages and its disconnect are not seen", path=w)
         key = gm[0][2][1] if gm else None
         # every registered stream is polled on every round, whatever handlers are set: closes, pings and pongs are only seen by polling
         hand = []
